@@ -144,6 +144,8 @@ IDIOMS = {
         "def build{n}(u):\n    first = make(\n        alpha=u.one,\n        beta=u.two,\n        gamma=u.three,\n        delta=u.four,\n    )\n    second = make(\n        alpha=u.one,\n        beta=u.two,\n        gamma =\n            u.three,\n        delta=u.four,\n    )\n    return first, second",
         "def guarded{n}(name):\n    try:\n        step(name)\n    except ValueError as exc:\n        raise StepError(name) from exc\n    try:\n        other(name)\n    except KeyError as exc:\n        raise StepError(name) from exc\n    return name",
         "def all_positive{n}(values):\n    for value in values:\n        if value <= 0:\n            return False\n    return True",
+        "def pack{n}(raw):\n    data = raw.strip()\n    copy = list(data)\n    metadata = len(copy)\n    for item in copy:\n        if item in data_seen{n}:\n            return metadata\n    return 0",
+        "def scan_all{n}(lines):\n    pat = \"^a+b\"\n    pattern_hits = []\n    for line in lines:\n        if re.search(pat, line):\n            pattern_hits.append(line)\n    return pattern_hits",
         "def cleaned{n}(values):\n    result = []\n    for value in values:\n        stripped = value.strip()\n        if stripped:\n            result.append(stripped)\n    return result",
         "def leading{n}(values):\n    taken = []\n    for value in values:\n        if value < 0:\n            break\n        taken.append(value)\n    return taken",
         "def only_files{n}(paths):\n    for path in paths:\n        if not path.is_file():\n            continue\n        handle(path)",
@@ -168,6 +170,7 @@ IDIOMS = {
         "function hasNegative{n}(values: number[]): boolean {\n  for (const v of values) {\n    if (v < 0) {\n      return true;\n    }\n  }\n  return false;\n}",
         "function joinAll{n}(items: string[]): string {\n  let result = \"\";\n  for (const item of items) {\n    result += item;\n  }\n  return result;\n}",
         "function syncUser{n}(id: number) {\n  const user = fetchUser(id);\n  updateCache(user);\n  return user;\n}",
+        "function pack{n}(input: string) {\n  const data = input.trim();\n  const copy = data.slice(0);\n  const metadata = copy.length;\n  if (metadata > 3) {\n    return copy;\n  } else if (metadata > 2) {\n    return data;\n  }\n  return \"\";\n}",
         "function report{n}(rows: string[]) {\n  for (const row of rows) {\n    console.log(row);\n  }\n}",
         "function statusText{n}(status: string): number {\n  if (status === \"open\") {\n    return 1;\n  } else if (status === \"closed\") {\n    return 2;\n  }\n  return 4242;\n}",
         "class Shape{n} {\n  constructor(private w: number) {}\n  area() {\n    return this.w * 31;\n  }\n  name() {\n    return \"shape\";\n  }\n}",
@@ -175,6 +178,8 @@ IDIOMS = {
     ],
     "rs": [
         "fn risky{n}(s: Option<i32>) -> i32 {\n    let v = s.unwrap();\n    let w = s.expect(\"present\");\n    v + w\n}",
+        "fn pack{n}(input: &str) -> usize {\n    let data = input.to_string();\n    let copy = data.clone();\n    let metadata = copy.len();\n    metadata\n}",
+        "fn stash{n}(input: &str) -> usize {\n    let text = input.to_string();\n    let kept = text.clone();\n    let total_len = kept.len();\n    if total_len > 3 { 1 } else if total_len > 2 { 2 } else { 3 }\n}",
         "fn cloner{n}(items: Vec<String>) -> usize {\n    let mut n = 0;\n    for it in items.iter() {\n        let c = it.clone();\n        n += c.len();\n    }\n    n\n}",
         "async fn loader{n}() -> String {\n    let text = std::fs::read_to_string(\"a.txt\").unwrap();\n    std::thread::sleep(std::time::Duration::from_secs(1));\n    text\n}",
         "#[cfg(test)]\nmod tests{n} {\n    #[test]\n    fn check_it() {\n        let v: Option<i32> = Some(1);\n        assert_eq!(v.unwrap(), 4242);\n    }\n}",
